@@ -21,6 +21,8 @@ import (
 type Ctx struct {
 	Seed  uint64
 	Tier  string
+	Only  string // "part:index": run only that history of a suite (replay of a crash of the process)
+	dir   string
 	cases *bufio.Writer
 	impl  *bufio.Writer
 	tags  *bufio.Writer
@@ -28,6 +30,18 @@ type Ctx struct {
 }
 
 func (c *Ctx) Quick() bool { return c.Tier != "thorough" }
+
+// Begin is called before a history that drives the production loop starts: it records which one is
+// running (a fault that kills the process - SIGSEGV, a fatal runtime error - cannot be caught; the
+// check then reads this file and names the history), and tells whether the history is to be run.
+func (c *Ctx) Begin(part string, i int) bool {
+	id := fmt.Sprintf("%s:%d", part, i)
+	if c.Only != "" && c.Only != id {
+		return false
+	}
+	os.WriteFile(filepath.Join(c.dir, "progress.txt"), []byte(id+"\n"), 0o644)
+	return true
+}
 
 // Safe runs the implementation for one case; a panic (the process would have died) becomes the
 // observable (panic <message>) instead of killing the whole run.
@@ -60,6 +74,7 @@ func main() {
 	tier := flag.String("tier", "quick", "quick|thorough")
 	dir := flag.String("dir", "", "output directory")
 	replay := flag.String("replay", "", "replay a cases file: re-run the implementation on each '<entry> <input>' line")
+	only := flag.String("only", "", "part:index - run only this history of the suite")
 	list := flag.Bool("list", false, "list suites")
 	flag.Parse()
 	if *list {
@@ -90,7 +105,7 @@ func main() {
 	f1, w1 := open("cases.txt")
 	f2, w2 := open("impl.out")
 	f3, w3 := open("tags.txt")
-	ctx := &Ctx{Seed: *seed, Tier: *tier, cases: w1, impl: w2, tags: w3}
+	ctx := &Ctx{Seed: *seed, Tier: *tier, Only: *only, dir: *dir, cases: w1, impl: w2, tags: w3}
 	if *replay != "" {
 		replayFile(ctx, *replay)
 	} else {
